@@ -37,6 +37,9 @@ type c05Attrs struct {
 type c05Svc struct {
 	File    string   `json:"file"`
 	Name    string   `json:"name"`
+	Null    bool     `json:"null_body,omitempty"` // the service is written as `name:` with no value (only for attribute-less bases)
+	Extra   []string `json:"extra_attrs,omitempty"` // attributes outside the vocabulary, generated from ExtraSeed: only the
+	// visit-order clause looks at them (the reference resolver does not model their merge rules)
 	ExtFile string   `json:"extends_file,omitempty"` // "" = same file
 	ExtSvc  string   `json:"extends_service,omitempty"`
 	ExtForm string   `json:"extends_form,omitempty"` // short | long | relfile | absfile
@@ -51,7 +54,13 @@ type c05Scenario struct {
 	Victim   string     `json:"victim,omitempty"`
 	ExecSeed uint64     `json:"exec_seed"`
 	MaxPerms int        `json:"max_perms"`
+	ExtraSeed uint64    `json:"extra_seed"`
 }
+
+// attributes that do not refer to other services or resources and are valid on any service
+var c05Extras = []string{"extra_hosts", "ports", "expose", "sysctls", "ulimits", "healthcheck", "logging", "deploy", "tmpfs", "dns_search", "cap_drop",
+	"security_opt", "annotations", "devices", "entrypoint", "hostname", "working_dir", "stop_signal", "restart", "privileged", "read_only", "mem_limit",
+	"cpus", "pids_limit", "shm_size", "blkio_config", "storage_opt", "group_add", "post_start", "x-ext", "develop", "gpus", "stop_grace_period"}
 
 func (sc *c05Scenario) find(file, name string) *c05Svc {
 	for i := range sc.Svcs {
@@ -178,6 +187,21 @@ func genC05(r *zsimrt.Run) *c05Scenario {
 	}
 	sc.Svcs = append(all, mains...)
 	sc.KeyPerm = r.Chance("keyperm", 1, 2)
+	sc.ExtraSeed = uint64(1 + r.Draw("extra-seed", 1<<30))
+	if r.Chance("extras", 1, 2) {
+		for i := range sc.Svcs {
+			n := r.Draw("n-extra", 4)
+			for j := 0; j < n; j++ {
+				sc.Svcs[i].Extra = append(sc.Svcs[i].Extra, c05Extras[r.Draw("extra-attr", len(c05Extras))])
+			}
+		}
+	}
+	for i := range sc.Svcs {
+		b, _ := json.Marshal(sc.Svcs[i].Attrs)
+		if sc.Svcs[i].File != sc.Main && sc.Svcs[i].ExtSvc == "" && string(b) == "{}" && len(sc.Svcs[i].Extra) == 0 && r.Chance("null-base", 1, 2) {
+			sc.Svcs[i].Null = true
+		}
+	}
 	switch r.Draw("kind", 8) {
 	case 0:
 		sc.Kind = "cycle"
@@ -307,6 +331,29 @@ func (sc *c05Scenario) layout(perm func(int) []int) *Layout {
 			default:
 				y.Set("extends", Map().Set("file", Str(s.ExtFile)).Set("service", Str(s.ExtSvc)))
 			}
+		}
+		if len(s.Extra) > 0 {
+			// deterministic per (scenario, service): the same text in every visit-order variant
+			h := sc.ExtraSeed
+			for _, c := range s.File + "#" + s.Name {
+				h = h*1099511628211 ^ uint64(c)
+			}
+			g := &G{R: zsimrt.NewRun(h), feat: map[string]bool{"interpolation": false}, L: &Layout{}}
+			cc := &svcCtx{name: s.Name, dir: path.Dir(s.File)}
+			for _, a := range s.Extra {
+				if y.Get(a) != nil {
+					continue
+				}
+				if a == "x-ext" {
+					y.Set("x-extra", g.attr(a, cc))
+				} else if v := g.attr(a, cc); v != nil {
+					y.Set(a, v)
+				}
+			}
+		}
+		if s.Null {
+			d.Get("services").Set(s.Name, Null())
+			continue
 		}
 		d.Get("services").Set(s.Name, y)
 	}
